@@ -3,7 +3,53 @@
    A site outside the fragment falls back on the reference definition and is flagged [translated_* = false]. *)
 Require Import Verif.Model.Base Verif.Model.Decision Verif.Model.Dec Verif.Model.GoSem Verif.Model.Level Verif.Model.RegRef.
 
-(* untranslatable: .RegisterLevel: start statement not found *)
-Definition register := RegRef.register_ref.
-Definition translated_register := false.
+(* .RegisterLevel  (returns (error, tables); None = panic / out of fuel) *)
+Definition register (g_allLevels : list Z) (m_levelToString : list (Z * bytes)) (m_stringToLevel : list (bytes * Z)) (m_shortTagMap : list (Z * list (Z * bytes))) (m_mLevelColors : list (Z * list Z)) (m_mLevelIsEnabledAs : list (Z * Z)) (m_mLevelUseErrorDevice : list (Z * bool)) (levelValue : Z) (title : bytes) (o_tags : list bytes) (o_clr o_bg o_treat : Z) (o_err : bool) : option (option bytes * list Z * list (Z * bytes) * list (bytes * Z) * list (Z * list (Z * bytes)) * list (Z * list Z) * list (Z * Z) * list (Z * bool)) :=
+  let '(brk_, rv_) := fold_left (fun st_ (v : Z) => let '(brk_, rv_) := st_ in
+    if (brk_ : bool) then st_ else
+    if (v =? levelValue)
+    then (true, Some (Some [x74;x68;x65;x20;x67;x69;x76;x65;x6e;x20;x6c;x65;x76;x65;x6c;x20;x25;x71;x20;x69;x73;x20;x64;x75;x70;x6c;x69;x63;x61;x74;x65;x64;x20;x77;x69;x74;x68;x20;x25;x71]))
+    else (false, (@None (option bytes)))) g_allLevels (false, (@None (option bytes))) in
+  match rv_ with
+    | Some rv_ => Some ((rv_, g_allLevels, m_levelToString, m_stringToLevel, m_shortTagMap, m_mLevelColors, m_mLevelIsEnabledAs, m_mLevelUseErrorDevice))
+    | None => match lookupB m_stringToLevel (to_lower title) with
+      | Some l => Some (((Some [x74;x68;x65;x20;x74;x69;x74;x6c;x65;x20;x25;x71;x20;x68;x61;x73;x20;x62;x65;x65;x6e;x20;x75;x73;x65;x64;x20;x66;x6f;x72;x20;x25;x71]), g_allLevels, m_levelToString, m_stringToLevel, m_shortTagMap, m_mLevelColors, m_mLevelIsEnabledAs, m_mLevelUseErrorDevice))
+      | None => let g_allLevels := (g_allLevels ++ [levelValue]) in
+        let m_levelToString := (mapZ_set m_levelToString levelValue title) in
+        let m_stringToLevel := (mapB_set m_stringToLevel (to_lower title) levelValue) in
+        let i := 0 in
+        match go_loop (S (Z.to_nat (6 - i))) (fun st_ => let '(m_shortTagMap, i) := st_ in
+            if (i <? 6)
+            then let str := (tag_at o_tags i) in
+            if (negb (bytes_eqb str []))
+            then match map2_set m_shortTagMap i levelValue str with
+            | None => LoopPanic
+            | Some r1_ => let m_shortTagMap := r1_ in
+              let i := (i + 1) in
+              LoopNext (m_shortTagMap, i)
+            end
+            else let i := (i + 1) in
+            LoopNext (m_shortTagMap, i)
+            else LoopDone (m_shortTagMap, i)) (m_shortTagMap, i) with
+        | None => None
+        | Some (m_shortTagMap, i) => let m_mLevelColors := if (negb (o_clr =? (-1)))
+          then if (negb (o_bg =? (-1)))
+          then let m_mLevelColors := (mapZ_set m_mLevelColors levelValue ([o_clr; o_bg])) in
+          m_mLevelColors
+          else let m_mLevelColors := (mapZ_set m_mLevelColors levelValue [o_clr]) in
+          m_mLevelColors
+          else m_mLevelColors in
+          let m_mLevelIsEnabledAs := if (o_treat <? 12)
+          then let m_mLevelIsEnabledAs := (mapZ_set m_mLevelIsEnabledAs levelValue o_treat) in
+          m_mLevelIsEnabledAs
+          else m_mLevelIsEnabledAs in
+          let m_mLevelUseErrorDevice := if o_err
+          then let m_mLevelUseErrorDevice := (mapZ_set m_mLevelUseErrorDevice levelValue true) in
+          m_mLevelUseErrorDevice
+          else m_mLevelUseErrorDevice in
+          Some ((None, g_allLevels, m_levelToString, m_stringToLevel, m_shortTagMap, m_mLevelColors, m_mLevelIsEnabledAs, m_mLevelUseErrorDevice))
+        end
+      end
+    end.
+Definition translated_register := true.
 
